@@ -17,7 +17,7 @@ MANIFEST = {
     "text": "Depth 1: every condition of the value tables in every spelling (29 bool/str/num keyword aliases x "
             "{== eq != ne < lt <= le > gt >= ge, implicit equality, =~} x bare/'single'/\"double\"/int/float literals, "
             "reversed comparisons, ranges, implicit lists; ~950 strings). Depth 2: every tree leaf | not leaf | leaf conn "
-            "leaf over 23 representative leaves (one per syntactic class and operator spelling) x {and,&&,or,||} x {not,!}, "
+            "leaf over 21 representative leaves (one per syntactic class and operator spelling) x {and,&&,or,||} x {not,!}, "
             "rendered flat / minimally / fully parenthesised / every leaf parenthesised (~6.5k). Depth 3: every tree of depth "
             "<= 3 over 3 leaves (quick; 5 leaves thorough) in all connective spellings, rendered flat (re-associated by "
             "precedence), minimal and full (~18k quick, ~120k thorough). Plus parenthesis nesting 1..5, whitespace variants, "
@@ -351,13 +351,13 @@ def run(ctx):
     fixture = _fixture_checks(ctx, R, G)
     items, groups, stats = _space(ctx, R, G)
 
-    # jitter: the seed rotates the order in which programs are handed to the workers
-    bs = 40
-    batches = [items[i:i + bs] for i in range(0, len(items), bs)]
-    k = ctx.seed % max(1, len(batches))
+    # strided batches mix cheap and expensive programs; the seed only rotates the hand-out order (jitter)
+    nb = max(1, min(len(items) // 25, 512))
+    batches = [items[j::nb] for j in range(nb)]
+    k = ctx.seed % nb
     batches = batches[k:] + batches[:k]
     results = {}
-    for recs in ctx.pmap(_worker, batches, chunksize=4):
+    for recs in ctx.pmap(_worker, batches):
         for rec in recs:
             results[rec["s"]] = rec
 
@@ -425,7 +425,7 @@ def run(ctx):
         "distinct_nontrivial": len(nontrivial),
         "distinct_selected_sets": len(distinct_sets),
         "rule": "every program of the grammar described in vlib/refmodels/selection_gen.py (depth 1 in every spelling, depth 2 "
-                "over 23 representative leaves, depth 3 %s, all connective spellings and parenthesisations) plus "
+                "over 21 representative leaves, depth 3 %s, all connective spellings and parenthesisations) plus "
                 "nesting, whitespace and malformed strings; each distinct string is executed once; non-trivial = the reference "
                 "selects neither no atom nor all %d atoms" % (
                     "three-leaf slice over 3 leaves" if ctx.quick else "complete over 4 leaves + three-leaf slice over 5 leaves",
